@@ -310,6 +310,8 @@ class C16(Prop):
         """The matrices are kept in a per-process cache (they are large); the JSON result that
         goes to evidence / replay files is a summary with a digest of the full data."""
         full = self._run_full(case)
+        if len(self._cache) > 400:      # bounded (the driver's search loop may run thousands of cases)
+            self._cache.clear()
         self._cache[json.dumps(case, sort_keys=True)] = full
         blob = json.dumps(full, sort_keys=True).encode()
         return {"nd": full["nd"], "rd": full["rd"], "nc": full["nc"], "nf": full["nf"],
